@@ -1447,6 +1447,7 @@ func (sys *System) ClearLocationStats(ctx *Context, location string) error {
 	defer sys.releaseLocation(ctx, location)
 	if err != nil {
 		Log(ERROR, ctx, "System.ClearLocationStats", "location", location, "error", err)
+		return err
 	}
 	loc.ClearStats()
 	atomic.AddUint64(&sys.stats.TotalTime, uint64(Now()-then))
